@@ -116,6 +116,9 @@ def run(ctx):
             ctx.ob("E6.pass", u.key + "/result", not bad, "unseal_with_shares returns the result of decrypt itself (or a constant rejection)%s" % ("" if not bad else "; other results: %s" % bad[:2]), where=where(u, dec[0].bb))
         cts = [c for c in R.ctoption_sites(P, u)]
         ctx.ob("E4.shares", u.key + "/reject", any(G.formula(c[2], P) == G.FALSE for c in cts), "fewer than two shares yield a constant-0 option", where=where(u))
+    from . import protocols as PR_
+
+    PR_.check_decrypt_passthrough(ctx, P)
     d = ctx.need_fn("E6.combine", "SignCryptCiphertext<C>::decrypt_with_shares")
     if d is not None:
         F.check_no_dropping_adapters(ctx, "E7.adapters", P, [d.key, "SignCryptDecryptionKey<C>::from_shares"])
